@@ -17,6 +17,18 @@ package local
 // this Save. A crash point is only counted when the kill is verified (wait status / strace
 // log), so a strace that fails to start can never produce a pass.
 //
+// (c) error injection: `strace -e inject=<syscall>:error=<ERRNO>:when=N` makes one system call
+// of the Save FAIL instead of killing the process: data fsync -> EIO, write#k -> ENOSPC/EIO,
+// renameat -> EIO/EXDEV, directory fsync -> EIO, close(temp) -> EIO, mkdirat -> EACCES, and the
+// errors local.go deliberately ignores (preallocation failure of any kind; ENOTSUP of the data
+// fsync; ENOTSUP/ENOENT/EINVAL of the directory fsync; permission/unsupported errors of the
+// final chmod). Oracle: an error that is not documented as ignorable makes Save return an
+// error (helper exit code) and the final name is absent or holds the complete previous
+// content (new content only when the failing call comes after the successful data fsync and
+// rename); an ignorable error leaves Save successful with the complete new content. The log
+// of every such run is also replayed on the durability model, where data only becomes
+// durable by a fsync(fd) that RETURNED 0.
+//
 // Power loss cannot be produced in a sandbox; it is covered by a durability model replayed
 // over the un-injected strace log of the same Save (see modelC36).
 
@@ -59,6 +71,14 @@ type specC36 struct {
 	Size   int
 	Pieces []int
 	KillAt int64 // -1: never
+}
+
+func init() {
+	// keep the helper's main goroutine on the main thread from the very start: strace counts
+	// `when=N` per thread
+	if os.Getenv("VERIF_C36_HELPER") != "" {
+		runtime.LockOSThread()
+	}
 }
 
 func TestMain(m *testing.M) {
@@ -156,6 +176,8 @@ type runResC36 struct {
 	completed bool   // the helper exited 0
 	broken    string // anything else (strace did not start, helper error, ...)
 	log       string // strace log (if any)
+	exited    bool   // the helper exited by itself with exitCode (0: Save ok, 93: Save returned an error)
+	exitCode  int
 }
 
 func helperCmdC36(sp specC36, straceArgs []string, logPath string) *exec.Cmd {
@@ -211,11 +233,13 @@ func runStraceC36(sp specC36, trace, inject, logPath string) runResC36 {
 	// fatal signal) AND its log reports a tracee killed by SIGKILL AND no tracee exited normally.
 	// Evidence for "completed": strace exited 0 and the log reports "exited with 0".
 	killedLine, exit0, exitOther := false, false, false
+	codes := map[string]bool{}
 	for _, ln := range strings.Split(res.log, "\n") {
 		if reKilledC36.MatchString(ln) {
 			killedLine = true
 		}
 		if m := reExitC36.FindStringSubmatch(ln); m != nil {
+			codes[m[2]] = true
 			if m[2] == "0" {
 				exit0 = true
 			} else {
@@ -230,6 +254,10 @@ func runStraceC36(sp specC36, trace, inject, logPath string) runResC36 {
 		res.killed = true
 	case exit0 && err == nil && !killedLine && !exitOther:
 		res.completed = true
+		res.exited, res.exitCode = true, 0
+	case !killedLine && !exit0 && len(codes) == 1 && ws.Exited() && codes[strconv.Itoa(ws.ExitStatus())]:
+		// the helper exited with a non-zero code and strace passed it on
+		res.exited, res.exitCode = true, ws.ExitStatus()
 	default:
 		head := res.log
 		if len(head) > 400 {
@@ -275,6 +303,13 @@ type caseC36 struct {
 	Neighbour bool
 	KillAts   []int64
 	WriteNs   []int
+	// error injection
+	WriteErrno   string
+	RenameErrno  string
+	DirSyncIgn   string
+	FallocErrno  string
+	ChmodErrno   string
+	OptionalErrs []string
 }
 
 func hexNameC36(seed uint64) string {
@@ -344,6 +379,17 @@ func genCaseC36(t *rapid.T) caseC36 {
 	// strace write#n kills
 	if c.Size > 0 {
 		c.WriteNs = append(c.WriteNs, rapid.IntRange(1, len(c.Pieces)).Draw(t, "writen"))
+	}
+	c.WriteErrno = rapid.SampledFrom([]string{"ENOSPC", "EIO"}).Draw(t, "writeerrno")
+	c.RenameErrno = rapid.SampledFrom([]string{"EIO", "EXDEV"}).Draw(t, "renameerrno")
+	c.DirSyncIgn = rapid.SampledFrom([]string{"EINVAL", "ENOTSUP", "ENOENT"}).Draw(t, "dirsyncign")
+	c.FallocErrno = rapid.SampledFrom([]string{"ENOSPC", "EOPNOTSUPP", "EIO"}).Draw(t, "fallocerrno")
+	c.ChmodErrno = rapid.SampledFrom([]string{"EPERM", "EIO", "ENOTSUP", "EACCES"}).Draw(t, "chmoderrno")
+	opt := []string{"fsync1-notsup", "fsync2-ignorable", "fallocate", "fchmodat", "close"}
+	if verifkit.Tier() == "thorough" {
+		c.OptionalErrs = opt
+	} else {
+		c.OptionalErrs = rapid.Permutation(opt).Draw(t, "opterrs")[:3]
 	}
 	return c
 }
@@ -620,7 +666,7 @@ type inodeC36 struct {
 // invariant is asserted: the final name is absent, or the old complete file, or a file whose
 // *durable* bytes are the complete payload. At the end of the log (Save returned success) the
 // final name must durably be the complete new file.
-func modelC36(fx *fixtureC36, log string) (violation string, nstates int, info string) {
+func modelC36(fx *fixtureC36, log string, saveOK, requireDurable bool) (violation string, nstates int, info string) {
 	threads := parseStraceC36(log)
 	finalBase := filepath.Base(fx.finalPath)
 	// the thread that performs the Save: the one that opens a file for writing inside the directory
@@ -633,13 +679,16 @@ func modelC36(fx *fixtureC36, log string) (violation string, nstates int, info s
 		}
 	}
 	if evs == nil {
+		if !saveOK {
+			return "", 0, "(no file opened for writing)"
+		}
 		return "model: no thread opens a file for writing in " + fx.dir, 0, ""
 	}
 	size := int64(len(fx.payload))
-	fds := map[string]*inodeC36{}  // open file descriptors of regular files in the directory
-	dirFds := map[string]bool{}     // open descriptors of the directory itself
-	volatile := map[string]*inodeC36{} // current directory entries (in memory)
-	durable := map[string]*inodeC36{}  // entries as of the last directory fsync
+	fds := map[string]*inodeC36{}               // open file descriptors of regular files in the directory
+	dirFds := map[string]bool{}                 // open descriptors of the directory itself
+	volatile := map[string]*inodeC36{}          // current directory entries (in memory)
+	durable := map[string]*inodeC36{}           // entries as of the last directory fsync
 	pendingVersions := map[string][]*inodeC36{} // per name: mappings since the last directory fsync (nil = absent)
 	if fx.old != nil {
 		o := &inodeC36{oldContent: true}
@@ -775,20 +824,59 @@ func modelC36(fx *fixtureC36, log string) (violation string, nstates int, info s
 	if violation != "" {
 		return violation, nstates, info
 	}
-	// completed Save: the new file must survive a power loss
-	d := durable[finalBase]
-	if len(pendingVersions[finalBase]) > 0 || d == nil || !d.isNew && fx.c.Pre != "same" || d.isNew && d.durable != size {
-		return fmt.Sprintf("model: Save returned success but the new content of %s is not guaranteed on disk (directory entry pending=%d)", finalBase, len(pendingVersions[finalBase])), nstates, info
-	}
 	for _, tn := range tmpNames {
 		if _, err := restic.ParseID(tn); err == nil {
 			return fmt.Sprintf("temporary file name %q parses as a restic ID", tn), nstates, info
 		}
 	}
+	if !saveOK {
+		return "", nstates, info
+	}
 	if len(tmpNames) == 0 {
 		return "model: the Save never used a temporary name (data written straight to " + finalBase + ")", nstates, info
 	}
+	if !requireDurable {
+		return "", nstates, info
+	}
+	// completed Save: the new file must survive a power loss
+	d := durable[finalBase]
+	if len(pendingVersions[finalBase]) > 0 || d == nil || !d.isNew && fx.c.Pre != "same" || d.isNew && d.durable != size {
+		return fmt.Sprintf("model: Save returned success but the new content of %s is not guaranteed on disk (directory entry pending=%d)", finalBase, len(pendingVersions[finalBase])), nstates, info
+	}
 	return "", nstates, info
+}
+
+// tmpCloseOrdinalC36 finds, in an un-injected trace, the how-manieth close(2) of the Save
+// thread closes the temp file, so that exactly this call can be made to fail.
+func tmpCloseOrdinalC36(fx *fixtureC36, log string) (int, bool) {
+	for _, evs := range parseStraceC36(log) {
+		tmpFd := ""
+		n := 0
+		for _, e := range evs {
+			switch e.name {
+			case "openat":
+				if strings.Contains(e.args, fx.dir+"/") && strings.Contains(e.args, "-tmp-") && e.ret != "-1" {
+					tmpFd = e.ret
+				}
+			case "close":
+				n++
+				if tmpFd != "" && strings.TrimSpace(e.args) == tmpFd {
+					return n, true
+				}
+			}
+		}
+	}
+	return 0, false
+}
+
+// injectedCallC36 returns the log line of the injected failure (empty: nothing was injected).
+func injectedCallC36(log, sys string) string {
+	for _, ln := range strings.Split(log, "\n") {
+		if strings.Contains(ln, "(INJECTED)") && strings.Contains(ln, sys) {
+			return ln
+		}
+	}
+	return ""
 }
 
 func roleC36(name, finalBase string) string {
@@ -897,46 +985,7 @@ func TestVerifC36Crash(t *testing.T) {
 			st.Class("skipped-strace-points")
 			return
 		}
-		// (b) strace kills
-		type pt struct {
-			sys  string
-			when int
-			must bool // the syscall certainly occurs in this Save
-		}
-		pts := []pt{
-			{"mkdirat", 1, !c.DirExists},
-			{"fallocate", 1, c.Size > 0},
-			{"fsync", 1, true},
-			{"renameat", 1, true},
-			{"fsync", 2, true},
-			{"fchmodat", 1, true},
-		}
-		for _, n := range c.WriteNs {
-			pts = append(pts, pt{"write", n, true})
-		}
-		for _, p := range pts {
-			if !p.must && p.sys == "mkdirat" {
-				continue // directory exists: no mkdirat in this Save
-			}
-			if !p.must {
-				continue
-			}
-			kind := fmt.Sprintf("strace:%s#%d", p.sys, min(p.when, 2))
-			res := runStraceC36(fx.spec(-1), p.sys, fmt.Sprintf("%s:signal=SIGKILL:when=%d", p.sys, p.when), logPath)
-			switch {
-			case res.killed:
-				after(fmt.Sprintf("%s#%d", p.sys, p.when), kind)
-			case res.completed:
-				st.Class("expected-syscall-absent:" + kind)
-				t.Logf("injection %s#%d never triggered, the helper completed", p.sys, p.when)
-				_ = fx.reset()
-			default:
-				st.Class("strace-run-broken")
-				t.Logf("%s#%d: %s", p.sys, p.when, res.broken)
-				_ = fx.reset()
-			}
-		}
-		// durability model over the clean trace
+		// un-injected traced run: completed state, durability model, ordinal of the temp file's close
 		res := runStraceC36(fx.spec(-1), traceSet, "", logPath)
 		if !res.completed {
 			st.Class("strace-run-broken")
@@ -955,13 +1004,176 @@ func TestVerifC36Crash(t *testing.T) {
 				fail("completed", "completed Save: %s (state %s)", viol, state)
 			}
 		}
-		viol, nstates, info := modelC36(fx, res.log)
+		viol, nstates, info := modelC36(fx, res.log, true, true)
 		st.Evals(nstates)
 		st.Class("model-checked", "model-sequence: "+info)
 		if viol != "" {
 			fail("model", "%s\nsystem call sequence of the Save: %s", viol, info)
 		}
+		closeN, closeOK := tmpCloseOrdinalC36(fx, res.log)
 		_ = fx.reset()
+
+		// (b) strace kills
+		type pt struct {
+			sys  string
+			when int
+			must bool // the syscall certainly occurs in this Save
+		}
+		pts := []pt{
+			{"mkdirat", 1, !c.DirExists},
+			{"fallocate", 1, c.Size > 0},
+			{"fsync", 1, true},
+			{"renameat", 1, true},
+			{"fsync", 2, true},
+			{"fchmodat", 1, true},
+		}
+		for _, n := range c.WriteNs {
+			pts = append(pts, pt{"write", n, true})
+		}
+		for _, p := range pts {
+			if !p.must {
+				continue // e.g. directory exists: no mkdirat in this Save
+			}
+			kind := fmt.Sprintf("strace:%s#%d", p.sys, min(p.when, 2))
+			res := runStraceC36(fx.spec(-1), p.sys, fmt.Sprintf("%s:signal=SIGKILL:when=%d", p.sys, p.when), logPath)
+			switch {
+			case res.killed:
+				after(fmt.Sprintf("%s#%d", p.sys, p.when), kind)
+			case res.completed:
+				st.Class("expected-syscall-absent:" + kind)
+				t.Logf("injection %s#%d never triggered, the helper completed", p.sys, p.when)
+				_ = fx.reset()
+			default:
+				st.Class("strace-run-broken")
+				t.Logf("%s#%d: %s", p.sys, p.when, res.broken)
+				_ = fx.reset()
+			}
+		}
+
+		// (c) error injection
+		type ept struct {
+			label      string // histogram / required class
+			sys        string
+			when       int
+			errno      string
+			expectErr  bool // local.go does not document this error as ignorable
+			allowNew   bool // on error the final name may already hold the (synced) new content
+			model      bool // replay the log on the durability model
+			durableEnd bool // ... including "the completed Save is durable"
+		}
+		epts := []ept{
+			{"fsync#1:EIO", "fsync", 1, "EIO", true, false, true, false},
+			{"renameat#1:" + c.RenameErrno, "renameat", 1, c.RenameErrno, true, false, true, false},
+			{"fsync#2:EIO", "fsync", 2, "EIO", true, true, true, false},
+		}
+		if c.Size > 0 {
+			epts = append(epts, ept{"write:" + c.WriteErrno, "write", c.WriteNs[0], c.WriteErrno, true, false, true, false})
+		}
+		if !c.DirExists {
+			epts = append(epts, ept{"mkdirat#1:EACCES", "mkdirat", 1, "EACCES", true, false, true, false})
+		}
+		for _, o := range c.OptionalErrs {
+			switch o {
+			case "fsync1-notsup": // "Ignore error if filesystem does not support fsync": nothing can be durable there
+				epts = append(epts, ept{"fsync#1:ENOTSUP(ignorable)", "fsync", 1, "ENOTSUP", false, true, false, false})
+			case "fsync2-ignorable": // fsyncDir ignores ENOTSUP, ENOENT, EINVAL
+				epts = append(epts, ept{"fsync#2:" + c.DirSyncIgn + "(ignorable)", "fsync", 2, c.DirSyncIgn, false, true, true, false})
+			case "fallocate": // preallocation is best effort: every error is ignored
+				if c.Size > 0 {
+					epts = append(epts, ept{"fallocate#1:" + c.FallocErrno + "(ignorable)", "fallocate", 1, c.FallocErrno, false, true, true, true})
+				}
+			case "fchmodat": // permission and "unsupported" errors of the final chmod are ignored, others are not
+				if c.ChmodErrno == "EIO" {
+					epts = append(epts, ept{"fchmodat#1:EIO", "fchmodat", 1, "EIO", true, true, true, false})
+				} else {
+					epts = append(epts, ept{"fchmodat#1:" + c.ChmodErrno + "(ignorable)", "fchmodat", 1, c.ChmodErrno, false, true, true, true})
+				}
+			case "close":
+				if closeOK {
+					epts = append(epts, ept{"close(tmp):EIO", "close", closeN, "EIO", true, false, true, false})
+				} else {
+					st.Class("close-ordinal-unknown")
+				}
+			}
+		}
+		for _, p := range epts {
+			straceErrno := p.errno
+			if straceErrno == "ENOTSUP" {
+				straceErrno = "EOPNOTSUPP" // same number on Linux (syscall.ENOTSUP == 95); strace only knows this name
+			}
+			res := runStraceC36(fx.spec(-1), traceSet, fmt.Sprintf("%s:error=%s:when=%d", p.sys, straceErrno, p.when), logPath)
+			inj := injectedCallC36(res.log, p.sys+"(")
+			if inj == "" {
+				inj = injectedCallC36(res.log, p.sys+" resumed")
+			}
+			switch {
+			case !res.exited:
+				st.Class("strace-run-broken")
+				t.Logf("error injection %s: %s", p.label, res.broken)
+				_ = fx.reset()
+				continue
+			case inj == "":
+				st.Class("expected-syscall-absent:err=" + p.label)
+				t.Logf("error injection %s never triggered (exit %d)", p.label, res.exitCode)
+				_ = fx.reset()
+				continue
+			case res.exitCode != 0 && res.exitCode != 93:
+				st.Class("harness-problem:helper-exit")
+				t.Logf("error injection %s: helper exit code %d", p.label, res.exitCode)
+				_ = fx.reset()
+				continue
+			}
+			if p.sys == "close" {
+				// must have hit the temp file's descriptor
+				tmpFd := ""
+				for _, evs := range parseStraceC36(res.log) {
+					for _, e := range evs {
+						if e.name == "openat" && strings.Contains(e.args, "-tmp-") && e.ret != "-1" {
+							tmpFd = e.ret
+						}
+					}
+				}
+				if tmpFd == "" || !strings.Contains(inj, "close("+tmpFd+")") {
+					st.Class("close-injection-misplaced")
+					_ = fx.reset()
+					continue
+				}
+			}
+			saveOK := res.exitCode == 0
+			state, viol := fx.inspect()
+			st.Evals(1)
+			outcome := "save-error"
+			if saveOK {
+				outcome = "save-ok"
+			}
+			st.Class("err="+p.label, "state@err="+p.sys+fmt.Sprintf("#%d", min(p.when, 2))+":"+outcome+","+state)
+			point := "error " + p.errno + " injected into " + p.sys + fmt.Sprintf("#%d", p.when)
+			finalNew := strings.HasPrefix(state, "final=new,")
+			switch {
+			case viol != "":
+			case p.expectErr && saveOK:
+				viol = fmt.Sprintf("the system call failed (%s) but Save reported SUCCESS; local.go does not document %s of %s as ignorable", strings.TrimSpace(inj), p.errno, p.sys)
+			case !p.expectErr && !saveOK:
+				viol = fmt.Sprintf("Save failed although local.go documents %s of %s as ignorable (%s)", p.errno, p.sys, strings.TrimSpace(inj))
+			case saveOK && !strings.HasPrefix(state, "final=new"):
+				viol = "Save returned success but the file does not have its final content"
+			case !saveOK && finalNew && !p.allowNew:
+				viol = "Save returned an error, yet the new content stands under the final name although the failing call precedes the rename"
+			}
+			if viol == "" && p.model {
+				var ns int
+				var minfo string
+				viol, ns, minfo = modelC36(fx, res.log, saveOK, saveOK && p.durableEnd)
+				st.Evals(ns)
+				if viol != "" {
+					viol += "\nsystem call sequence: " + minfo
+				}
+			}
+			if viol != "" {
+				fail(point, "%s: %s (state %s)", point, viol, state)
+			}
+			_ = fx.reset()
+		}
 	}
 
 	rapid.Check(t, func(rt *rapid.T) {
